@@ -437,8 +437,12 @@ def random_case(rng, cid):
             if rng.random() < 0.02:
                 lines.append(a[0])
         if rng.random() < 0.92:
-            # the sub-group argument of the main handler: shares the main handler's key space in the generator
-            # (the library keeps mArguments and mSubGroupArgs apart; a clash now and then, see below)
+            # the sub-group argument of the main handler shares the main handler's key space (since 2dd61bc the
+            # library checks a new key against mArguments AND mSubGroupArgs); a clash now and then: first a
+            # sub-group argument with the key of a plain argument (refused, the handler stays unattached) ...
+            if (shorts or longs) and rng.random() < 0.08:
+                taken = rng.choice(sorted(shorts) + sorted(longs))
+                lines.append("us group k=%d key=%s desc=%s" % (k, taken, hx("key of a plain argument")))
             g = gen_arg(rng, shorts, longs, None, op="us group k=%d" % k, group=True)
             if g is not None:
                 lines.append(g[0])
@@ -461,8 +465,9 @@ def random_case(rng, cid):
         lines.append(a[0])
         if rng.random() < 0.03:
             lines.append(a[0])      # the same key again: rejected by the storage
-    if subs and rng.random() < 0.06:
-        # a plain argument with the key of a sub-group argument / the other way round: two containers, accepted
+    if subs and rng.random() < 0.08:
+        # ... and a plain argument with the key of a sub-group argument (refused since 2dd61bc; the unchanged tree
+        # accepted both and listed the key twice)
         k, sfl, ss, sl, gk = rng.choice(subs)
         if gk:
             lines.append("us arg key=%s kind=int desc=%s" % (gk, hx("same key as the group")))
